@@ -32,6 +32,11 @@ class FsSeam:
         except TypeError:
             return None
         if isinstance(p, bytes):
+            try:
+                p = os.fsdecode(p)
+            except Exception:
+                return None
+        if '\x00' in p:
             return None
         ap = os.path.normpath(os.path.join(os.getcwd(), p))
         # do not resolve the last component (it may be a symlink on purpose)
